@@ -954,6 +954,8 @@ namespace
                     O["ctype"] = typeStr(VD->getType().getCanonicalType());
                     if (VD->isStaticLocal())
                         O["static"] = true;
+                    if (VD->getTLSKind() != VarDecl::TLS_None)
+                        O["tls"] = true;
                     if (const Expr* I = VD->getInit())
                     {
                         O["init"] = refOf(I);
